@@ -231,7 +231,7 @@ fn usage() -> i32 {
 pub fn cli_main(args: &[String]) -> i32 {
 	std::panic::set_hook(Box::new(|info| {
 		let msg = info.to_string();
-		if msg.contains("MACHINERY") || msg.contains("cone") || std::env::var_os("VHIST_PANICS").is_some() {
+		if msg.contains("MACHINERY") || msg.contains("cone") || msg.contains("unsafe precondition") || std::env::var_os("VHIST_PANICS").is_some() {
 			eprintln!("{msg}");
 		}
 	}));
@@ -430,8 +430,8 @@ fn sweep(p: &ops::Profile, lo: usize, hi: usize, verbose: bool, nt_file: Option<
 			return 2;
 		}
 	};
-	for (_, c) in &p.opens {
-		if fx.files[c.index()].is_none() {
+	for (c, f) in p.opens.iter().map(|(_, c)| (c, 0)).chain(p.opens_sized.iter().map(|(_, c)| (c, 1))) {
+		if fx.file(*c, f).is_none() || !c.available() {
 			eprintln!("MACHINERY: codec {c:?} of profile {} is not compiled into this build", p.name);
 			return 2;
 		}
@@ -545,8 +545,8 @@ fn exec_batch(path: &str, mode: RefMode, use_proto: bool, deadline_ms: Option<u1
 				return 2;
 			}
 			for op in &h {
-				if let Op::Open(_, c) = op {
-					if fx.files[c.index()].is_none() {
+				if let Op::Open(_, c, f) = op {
+					if fx.file(*c, *f).is_none() {
 						eprintln!("MACHINERY: history {} needs the container file of codec {c:?}, which is not among the fixtures", ops::history_token(&h));
 						return 2;
 					}
